@@ -5,6 +5,7 @@
    `update` arguments (every argument is a Rust string, so it is given by its code points; UTF-8 is
    injective) to the lower-case hexadecimal digest.  Definitions only. *)
 From Sophia.Common Require Export Prelude Term.
+From Coq Require Uint63.
 
 Definition quad : Type := term * term * term * option term.   (* Spog: ([s,p,o], g) *)
 
@@ -541,11 +542,10 @@ Definition impl_ok (once : bool) (tbl : list (str * str)) (df1000 plimit : N) (d
   outcome_eqb (normalize_with (tbl_H tbl) once (fuel_for d) (Some df1000) (Some plimit) d)
               code bytes idmap.
 
-(* strings in generated case files are packed into one numeral: a leading hexadecimal digit 1
-   followed by six hexadecimal digits per code point (parsing long list literals is slow) *)
-Fixpoint unpack_f (fuel : nat) (n : N) (acc : str) : str :=
-  match fuel with
-  | O => acc
-  | S f => if n <=? 1 then acc else unpack_f f (N.shiftr n 24) (N.land n 16777215 :: acc)
-  end.
-Definition U (n : N) : str := unpack_f (N.to_nat (N.size n)) n [].
+(* strings in generated case files are packed three code points (21 bits each) per primitive
+   63-bit integer literal, 2097151 = padding (elaborating long list literals of N is slow) *)
+Definition cp3 (w : Uint63.int) : list N :=
+  let z := Z.to_N (Uint63.to_Z w) in
+  [N.land z 2097151; N.land (N.shiftr z 21) 2097151; N.shiftr z 42].
+Definition U (ws : list Uint63.int) : str :=
+  filter (fun c => negb (c =? 2097151)) (flat_map cp3 ws).
